@@ -1,6 +1,7 @@
 (* C14 — Contact queries round-trip through text and cannot be injected into.
    Statements only; proofs are in proofs/CqlQuoteProofs.v, CqlLexProofs.v, CqlSimplifyProofs.v, CqlParseProofs.v,
-   CqlRegexProofs.v, CqlGrammarFacts.v, CqlLexPrintProofs.v, CqlParserProofs.v, CqlRoundTripProofs.v.
+   CqlRegexProofs.v, CqlGrammarFacts.v, CqlLexPrintProofs.v, CqlParserProofs.v, CqlRoundTripProofs.v,
+   CqlTemplateProofs.v.
    Models: model/CqlPrinter.v (Condition.String, BoolCombination.String, Stringify, QuoteValue, Simplify),
    model/CqlParser.v (lexer = the token rules regenerated from antlr/ContactQL.g4 into gen/GrammarCQL.v, run by the
    maximal-munch tokenizer of lib/RegexLM.v; parser; visitor; ParseQuery), lib/Quote.v (strconv.Quote/Unquote).
@@ -11,7 +12,7 @@
 From Coq Require Import List NArith Bool.
 From Verif Require Import lib.Quote lib.RegexLM model.CqlSyntax gen.GrammarCQL model.CqlPrinter model.CqlParser
   proofs.CqlQuoteProofs proofs.CqlLexProofs proofs.CqlSimplifyProofs proofs.CqlParseProofs
-  proofs.CqlLexPrintProofs proofs.CqlParserProofs proofs.CqlRoundTripProofs.
+  proofs.CqlLexPrintProofs proofs.CqlParserProofs proofs.CqlRoundTripProofs proofs.CqlTemplateProofs.
 Import ListNotations.
 Open Scope N_scope.
 
@@ -57,6 +58,46 @@ Theorem c14_no_injection_condition : forall p pt key o v t, key_ok pt key -> op_
   = pushl [(PROPERTY, prop_prefix pt ++ key); (COMPARATOR, oper_text o); (STRING, quote_value p v)] (cql_lex t).
 Proof. exact lex_cond_escaped. Qed.
 Print Assumptions c14_no_injection_condition.
+
+(* Independence from the text BEFORE the value.  [lex_before n 34 pre = Some tp] is a certificate computed from the
+   template prefix alone (every token boundary in it is decided before or at the quote that follows; it fails exactly
+   when the prefix leaves a STRING candidate open): then for every value and every remaining text the prefix lexes to
+   its own tokens tp, the value is ONE STRING token, the rest lexes by itself. *)
+Theorem c14_no_injection_template : forall p pre tp, lex_before (length pre) 34 pre = Some tp ->
+  forall v rest,
+  cql_lex (pre ++ quote_value p v ++ rest) = pushl (tp ++ [(STRING, quote_value p v)]) (cql_lex rest).
+Proof. exact lex_template. Qed.
+Print Assumptions c14_no_injection_template.
+
+(* ... and the parser never reads the text of a STRING token: for any two values the outcome is the same — a syntax
+   error for both, or parse trees equal up to the text of that one literal: same number of conditions, same
+   properties, operators and boolean structure.  A substituted value can not add, drop or alter conditions. *)
+Theorem c14_template_structure : forall p pre tp, lex_before (length pre) 34 pre = Some tp ->
+  forall v1 v2 rest,
+  match cql_lex rest with
+  | LexOk tr =>
+      cql_lex (pre ++ quote_value p v1 ++ rest) = LexOk (tp ++ (STRING, quote_value p v1) :: tr)
+      /\ cql_lex (pre ++ quote_value p v2 ++ rest) = LexOk (tp ++ (STRING, quote_value p v2) :: tr)
+      /\ pres_sim (parse_tokens (tp ++ (STRING, quote_value p v1) :: tr)) (parse_tokens (tp ++ (STRING, quote_value p v2) :: tr))
+  | other => cql_lex (pre ++ quote_value p v1 ++ rest) = other /\ cql_lex (pre ++ quote_value p v2 ++ rest) = other
+  end.
+Proof. exact template_structure. Qed.
+Print Assumptions c14_template_structure.
+
+(* the visitor side of it: type, key and operator of an explicit condition do not depend on the literal's value *)
+Theorem c14_condition_shape : forall e pr c, exists pt key o, forall v, fst (visit_condition e pr c v) = Cond pt key o v.
+Proof. exact visit_condition_shape. Qed.
+Print Assumptions c14_condition_shape.
+
+(* certificates exist for ordinary prefixes and not for one that leaves a quote open *)
+Example c14_template_certificates :
+  lex_before (length tpl1) 34 tpl1 = Some [(PROPERTY, [110; 97; 109; 101]); (COMPARATOR, [61])]
+  /\ lex_before (length tpl2) 34 tpl2
+     = Some [(LPAREN, [40]); (PROPERTY, [102; 105; 101; 108; 100; 115; 46; 97; 103; 101]); (COMPARATOR, [62]);
+             (PROPERTY, [49; 48]); (OR, [79; 82]); (PROPERTY, [110; 97; 109; 101]); (COMPARATOR, [33; 61])]
+  /\ lex_before (length tpl_open) 34 tpl_open = None.
+Proof. exact lex_before_examples. Qed.
+Print Assumptions c14_template_certificates.
 
 (* the lexing half needs no hypothesis at all *)
 Theorem c14_lex_quoted_value : forall p v rest,
@@ -116,6 +157,15 @@ Theorem c14_print_parse : forall p e, p 10 = false -> forall q,
 Proof. exact print_parse. Qed.
 Print Assumptions c14_print_parse.
 
+(* the same without the normal-form hypothesis: ANY valid tree that NewBoolCombination can build without an empty
+   combination (nested same-operator combinations, single-child combinations, any arity) formats to a text that
+   ParseQuery turns into Simplify of the tree.  (`Comb b []` prints `()`, which Stringify strips to the empty text:
+   not a query, in Go as in the model.) *)
+Theorem c14_print_parse_any_tree : forall p e, p 10 = false -> forall q,
+  valid_tree e q -> nonempty_combs q -> parse_query e (stringify p (Some q)) = QOk (simplify q).
+Proof. exact print_parse_gen. Qed.
+Print Assumptions c14_print_parse_any_tree.
+
 (* the hypotheses are satisfiable: a three-level OR/AND/OR tree whose values are an injection attempt
    (`" OR id = 1 OR name = "`), two backslashes, the keyword OR, bare numbers and the empty value; a field keyed `or` *)
 Example c14_print_parse_example : forall redact,
@@ -147,6 +197,22 @@ Theorem c14_parse_print_parse_refuted :
   /\ parse_query e (stringify ascii_print (Some q)) = QSyntax.
 Proof. exact parse_print_parse_counterexample. Qed.
 Print Assumptions c14_parse_print_parse_refuted.
+
+(* starting from query TEXT (implicit conditions, the alias `has`/`IS`, juxtaposition, bare literals, a literal
+   ending in a backslash, both redaction policies): accepted, and the formatted query parses to the same query *)
+Example c14_reparse_from_text :
+  parse_query (env_example false ascii_lower) text_example1
+  = QOk (Some (Comb BAnd [Cond PAttr AttributeName OpContains [98; 111; 98];
+                          Comb BOr [Cond PField [97; 103; 101] OpGreaterThan [49; 48];
+                                    Cond PAttr AttributeName OpContains [120; 32; 121]];
+                          Cond PURN k_tel OpContains [43; 49; 50; 51; 52; 53]]))
+  /\ reparses (env_example false ascii_lower) text_example1 = true
+  /\ parse_query (env_example false ascii_lower) text_example2 = QOk (Some (Cond PAttr AttributeName OpEqual [97; 92]))
+  /\ reparses (env_example false ascii_lower) text_example2 = true
+  /\ reparses (env_example false ascii_lower) text_example3 = true
+  /\ reparses (env_example true ascii_lower) text_example2 = true.
+Proof. exact text_examples. Qed.
+Print Assumptions c14_reparse_from_text.
 
 (* the tokens of a formatted tree, whatever follows it after a space, a closing parenthesis or the end *)
 Theorem c14_lex_printed : forall p q, lexable q -> forall t, rest_ok t ->
